@@ -8,6 +8,8 @@ package grid
 // client abort after every prefix.
 
 import (
+	"path/filepath"
+	"encoding/binary"
 	"encoding/base64"
 	"crypto/sha256"
 	"net"
@@ -633,6 +635,11 @@ func TestC14(t *testing.T) {
 		c14Origin(rep, f, mode)
 		return
 	}
+	if part == "files" {
+		f.close()
+		c14Files(rep, mode)
+		return
+	}
 	switch part {
 	case "digests":
 		e.grpcDigestCells()
@@ -944,4 +951,105 @@ func c14Origin(rep *vlib.Report, f *fx, mode string) {
 func sriOf(b []byte) string {
 	h := sha256.Sum256(b)
 	return base64.StdEncoding.EncodeToString(h[:])
+}
+
+// c14Files: "caches holding arbitrary well- and ill-formed blobs": cas.v2 files whose HEADER
+// is damaged field by field (chunk size 0 / 1 / huge, logical size 0 / negative / larger /
+// smaller than the data, offset count too small / too large, offsets not increasing / beyond
+// the file, wrong compression type, truncated header) lie in the directory under valid names;
+// the cache is started on it and every read path asks for them at offsets 0, 1 and size-1.
+// Whatever the answer (miss, error), no handler may panic, hang or leak.
+func c14Files(rep *vlib.Report, mode string) {
+	dir := vlib.Scratch("c14files-" + mode)
+	content := vlib.Bytes("c14/files/"+mode, 3<<20+9, true)
+	good := vlib.EncodeCasBlob(content, 1<<20, true) // header: magic4 len4 size8 type1 chunk4 n8 offsets8*n
+	le := binary.LittleEndian
+	type variant struct {
+		name string
+		file []byte
+	}
+	mut := func(name string, f func(b []byte) []byte) variant {
+		return variant{name, f(append([]byte(nil), good...))}
+	}
+	nOff := int(le.Uint64(good[21:29]))
+	variants := []variant{
+		mut("chunk-size-0", func(b []byte) []byte { le.PutUint32(b[17:21], 0); return b }),
+		mut("chunk-size-1", func(b []byte) []byte { le.PutUint32(b[17:21], 1); return b }),
+		mut("chunk-size-huge", func(b []byte) []byte { le.PutUint32(b[17:21], 0xffffffff); return b }),
+		mut("chunk-size-half", func(b []byte) []byte { le.PutUint32(b[17:21], 1<<19); return b }),
+		mut("logical-size-0", func(b []byte) []byte { le.PutUint64(b[8:16], 0); return b }),
+		mut("logical-size-negative", func(b []byte) []byte { le.PutUint64(b[8:16], ^uint64(0)); return b }),
+		mut("logical-size-larger", func(b []byte) []byte { le.PutUint64(b[8:16], uint64(len(content))+(5<<20)); return b }),
+		mut("logical-size-smaller", func(b []byte) []byte { le.PutUint64(b[8:16], 10); return b }),
+		mut("offset-count-1", func(b []byte) []byte { le.PutUint64(b[21:29], 1); return b }),
+		mut("offset-count-2", func(b []byte) []byte { le.PutUint64(b[21:29], 2); return b }),
+		mut("offset-count-huge", func(b []byte) []byte { le.PutUint64(b[21:29], 1<<40); return b }),
+		mut("offsets-not-increasing", func(b []byte) []byte { copy(b[29+8:29+16], b[29:29+8]); return b }),
+		mut("offset-beyond-file", func(b []byte) []byte { le.PutUint64(b[29+8:29+16], uint64(len(b))+1000); return b }),
+		mut("compression-type-7", func(b []byte) []byte { b[16] = 7; return b }),
+		mut("compression-identity-claimed", func(b []byte) []byte { b[16] = 0; return b }),
+		mut("frame-length-short", func(b []byte) []byte { le.PutUint32(b[4:8], 5); return b }),
+		mut("header-truncated", func(b []byte) []byte { return b[:29+8*(nOff-1)] }),
+		mut("only-magic", func(b []byte) []byte { return b[:4] }),
+		mut("chunk-data-garbage", func(b []byte) []byte {
+			for i := 29 + 8*nOff; i < len(b); i++ {
+				b[i] ^= 0x5a
+			}
+			return b
+		}),
+	}
+	type placed struct {
+		name string
+		hash string
+	}
+	var files []placed
+	for i, v := range variants {
+		// every file gets its own (well-formed) name; the claimed hash is arbitrary
+		h := vlib.Sha([]byte(fmt.Sprintf("c14 file %s %d", mode, i)))
+		p := filepath.Join(dir, "cas.v2", h[:2])
+		_ = os.MkdirAll(p, 0o755)
+		if err := os.WriteFile(filepath.Join(p, fmt.Sprintf("%s-%d-%d", h, len(content), 100+i)), v.file, 0o644); err != nil {
+			rep.BrokenHarness("write: %v", err)
+			return
+		}
+		files = append(files, placed{v.name, h})
+	}
+	var f *fx
+	func() {
+		defer func() {
+			if r := recover(); r != nil {
+				rep.Violate("C14 files start-up panics on an ill-formed file", fmt.Sprintf("mode=%s: %v", mode, r), nil)
+			}
+		}()
+		f = newFx(fxOpts{mode: mode, validateAC: true, dir: dir})
+	}()
+	if f == nil {
+		return
+	}
+	defer f.close()
+	e := &c14Env{rep: rep, f: f, mode: mode}
+	f.settle()
+	time.Sleep(30 * time.Millisecond)
+	e.baseG, _ = handlerGoroutines()
+	n := int64(len(content))
+	for _, pf := range files {
+		for _, path := range []string{"bs", "bs_zstd", "http", "http_zstd", "batch", "batch_zstd"} {
+			for _, off := range []int64{0, 1, 1 << 20, 1<<20 + 1, n - 1} {
+				if off != 0 && !strings.HasPrefix(path, "bs") {
+					continue
+				}
+				id := fmt.Sprintf("mode=%s file=%s read via %s at offset %d", mode, pf.name, path, off)
+				e.run("files "+pf.name, id, false, func(ctx context.Context) (bool, string) {
+					rd := f.read(path, pf.hash, n, off, 0)
+					return rd.ok, rd.status
+				})
+			}
+		}
+		// an existence check and a dependency check on it
+		e.run("files", fmt.Sprintf("mode=%s file=%s FindMissingBlobs", mode, pf.name), false, func(ctx context.Context) (bool, string) {
+			_, err := f.cas.FindMissingBlobs(ctx, &pb.FindMissingBlobsRequest{BlobDigests: []*pb.Digest{{Hash: pf.hash, SizeBytes: n}}})
+			return err == nil, grpcStatus(err)
+		})
+	}
+	e.leakCheck("files", "the last ill-formed file")
 }
